@@ -199,32 +199,25 @@ pub fn sweep_doc(seed: u64, i: usize) -> Doc {
     }
 }
 
-/// Larger documents (k is sampled, not swept).
+/// Larger documents (k is sampled, not swept): a stream of many small block documents, or one
+/// big block sequence.
 pub fn large_doc(seed: u64, i: usize) -> Doc {
     let mut rng = Rng::stream(seed, i as u64 ^ 0x1a76e);
     let target = [9_000usize, 20_000, 40_000, 100_000][i % 4];
-    let mut text = String::new();
-    let mut ends = Vec::new();
-    let stream = i % 3 == 0;
-    let mut n = 0;
-    while text.len() < target {
-        if stream && n > 0 {
-            text.push_str("---\n");
-        }
-        let start = text.len();
-        let body = dangerous_body(&mut rng, "\n");
-        text.push_str(&body);
-        if stream {
+    if i % 3 == 0 {
+        let mut text = String::new();
+        let mut ends = Vec::new();
+        while text.len() < target {
+            if !text.is_empty() {
+                text.push_str("---\n");
+            }
+            let start = text.len();
+            let body = dangerous_body(&mut rng, "\n");
+            text.push_str(&body);
             ends.push(start + body.trim_end().len());
-        } else if rng.chance(1, 2) {
-            // keep it one document: only mappings with unique keys would collide, so use a sequence wrapper
         }
-        n += 1;
-    }
-    if stream {
         Doc { text, ends: Some(ends), class: "large-stream" }
     } else {
-        // one big block sequence of scalars (valid as a single document)
         let mut t = String::new();
         let mut k = 0;
         while t.len() < target {
